@@ -91,8 +91,11 @@ def parseDoc (s : String) : Option Spec.JVal.JDoc :=
 
 /-! ### socket addresses -/
 open Percival.Model.SockAddr in
+def showInt (x : UInt32) : String :=
+  if x.toNat < 2147483648 then toString x.toNat else toString ((x.toNat : Int) - 4294967296)
+open Percival.Model.SockAddr in
 def showAddr (a : SockAddr) : String :=
-  s!"{a.family.toNat} {a.socktype.toNat} {a.namelen.toNat} {hx a.name.toList}"
+  s!"{showInt a.family} {showInt a.socktype} {a.namelen.toNat} {hx a.name.toList}"
 
 def ntop4 (a : List UInt8) : Option (List UInt8) := if a.length = 4 then some (Inet.print4 a) else none
 def ntop6 (a : List UInt8) : Option (List UInt8) := if a.length = 16 then some (Inet.print6 a) else none
@@ -236,10 +239,10 @@ def step (_ : Unit) (toks : List String) : Unit × String :=
       s!"abi ok | unix={AF_UNIX.toNat} inet={AF_INET.toNat} inet6={AF_INET6.toNat} stream={SOCK_STREAM.toNat} " ++
       s!"sun_path={sunPathSize} un={sizeofSockaddrUn} in={sizeofSockaddrIn} in6={sizeofSockaddrIn6} int=4 socklen=4 le=1"
     | ["sser", fam, st, name] =>
-      match fam.toNat?, st.toNat?, bytesOfHex name with
+      match fam.toInt?, st.toInt?, bytesOfHex name with
       | some f, some t, some nm =>
         open Percival.Model.SockAddr in
-        let a : SockAddr := { family := UInt32.ofNat f, socktype := UInt32.ofNat t, namelen := UInt32.ofNat nm.length, name := nm.toArray }
+        let a : SockAddr := { family := UInt32.ofNat (f % 4294967296).toNat, socktype := UInt32.ofNat (t % 4294967296).toNat, namelen := UInt32.ofNat nm.length, name := nm.toArray }
         -- L1: the round trips are the identity; L2: the serialised bytes
         let l2 := resStr (serialize a) fun bytes =>
           let rt := match deserialize bytes.toArray bytes.length with
